@@ -162,8 +162,8 @@ def c17_stress(ctx, tier, seed, run_engine):
     rounds = 5 if tier == "thorough" else 2
     # sequential reference execution in a fresh process (twice, to see whether it is reproducible): the main thread and
     # then 1 + workers*rounds threads, one after another, draw `draws` priorities each
-    # (+ 96 short-lived threads of the long-lived-thread phase + 2 threads of the coincidence phase)
-    ref_threads = 1 + workers * rounds + 96 + 2
+    # (+ 96 short-lived threads of the long-lived-thread phase + 2 threads of the coincidence phase + 2 of the teardown phase)
+    ref_threads = 1 + workers * rounds + 96 + 2 + 2
     draws = per + 256
     refs = []
     for k in range(2):
